@@ -6,6 +6,7 @@ mod c03;
 mod c04;
 mod c05;
 mod c06;
+mod c07;
 mod c08;
 mod c09;
 mod c10;
@@ -17,6 +18,7 @@ mod c16;
 mod c20;
 mod ctx;
 mod docs;
+mod gdyn;
 mod obs;
 
 use ctx::{Ctx, Tier};
@@ -40,6 +42,7 @@ fn registry(id: &str) -> Option<Box<dyn Check>> {
         "C04" => Some(Box::new(c04::C04::new())),
         "C05" => Some(Box::new(c05::C05::new())),
         "C06" => Some(Box::new(c06::C06)),
+        "C07" => Some(Box::new(c07::C07)),
         "C08" => Some(Box::new(c08::C08)),
         "C09" => Some(Box::new(c09::C09::new())),
         "C10" => Some(Box::new(c10::C10)),
